@@ -178,7 +178,7 @@ pub struct ChunkPlan {
     pub sizes: Vec<usize>,
     pub styles: Vec<ChunkStyle>,
     pub last: ChunkStyle,
-    /// number of trailer fields (0..=3, from TRAILER_FIELDS) between the last chunk and the empty line that ends the body
+    /// number of trailer fields (TRAILER_FIELDS, cycled) between the last chunk and the empty line that ends the body
     #[serde(default)]
     pub trailers: u8,
 }
